@@ -8,7 +8,7 @@ TEXT = {
     "C02": "full proof on the model: C02_full = Props.C02_statement (for every input: root clauses, every block and inline span valid, inside its parent, siblings ordered and disjoint, and for valid UTF-8 input every span boundary on a character boundary); tie: span-structure correspondence, the span oracle and the formal statement evaluated on the implementation's trees",
     "C03": "full proof on the model: C03_full = Props.C03_statement (for every input no byte is covered by two leaves and every textual byte by exactly one), composed from the block-layer accounting, the coverage theorem of the inline parser and the entry invariants of the block layer; tie: leaf-span correspondence plus the coverage oracle and the formal statement evaluated on the implementation's trees",
     "C04": "full proof on the model that the whole parse is total for every input: the block layer reaches no panic site and exhausts no fuel (parseBlocks_total), the inline parser exhausts none of its fuels (parseFull_fuel_adequate, parseFull_total); Walk and readline terminate with stated fuel, renderer/formatter models are total; the implementation is run under recover + watchdog in all 30 configurations on hostile inputs; tie: model/implementation correspondence",
-    "C05": "full proof on the model of the node grammar for every input: block level (parseFull_gramBlocks), inline level incl. no link in a link and title-follows-destination (ComposeGram.parseFull_gramI), canContain closure, entry kinds, reference closure, item-number range; accessor agreement decided by kind/accessor correspondence through both entry points plus the grammar oracle",
+    "C05": "full proof on the model: C05_full = Props.C05_statement (for every input the whole node grammar incl. accessor agreement, no link in a link, title-follows-destination); tie: kind/accessor correspondence through both entry points plus the grammar oracle and the formal statement evaluated on the implementation's trees",
     "C06": "partial proof: whole-pipeline statement proved on four slices for inputs of any length (escaped text, verbatim fenced code, emphasis nests = the spec's delimiter procedure, a shortcut reference against one definition); for general documents: denotation oracle on serialised abstract documents (lib/docgen.py) plus model/implementation HTML correspondence",
     "C07": "full proof on the model: C07_final (for every input, every reference matcher, every configuration without tag filter, rendered HTML is in the safe grammar); C07_render_safeW holds for every tree whose leaves satisfy bokW and the run evaluates bokW on the implementation's own trees; tie: model renderer on the implementation's tree = implementation's bytes",
     "C08": "full proof on the stream-layer model: readline under any read schedule (readline_sim), whole NextBlock (next_block_sim), whole runs and the fault clause (C08_stream_eq, C08_fault), any block machine satisfying three stated laws; tie: streaming implementation under generated schedules/faults vs the in-memory model on the delivered prefix",
@@ -19,7 +19,7 @@ TEXT = {
     "C13": "full proof on the model: C13_full = Props.C13_statement (for every input every block and inline node has a valid span and the shape of its construct); tie: (kind, span) correspondence plus the shape oracle and the formal statement evaluated on the implementation's trees",
     "C14": "proof on the model at the block layer: padding clause for every input (parseBlocks_blank_prefix); CR clause for every input (parseBlocks_cr); CRLF clause and final-newline clause for every input without '[' (parseBlocks_crlf_nobracket, parseBlocks_final_newline_nobracket: exact tree relations); with '[' the unrestricted statements are refuted (finding D24) and only bounded-exhaustive evidence exists (thorough tier); recognizers insensitive to line endings; tie and rendering level: correspondence on the variants plus the oracle",
     "C15": "full proof on the model: every recognizer equals (or is sound and complete for) its declarative definition on every line, classifiers over all 256 bytes, e-mail grammar, URI alphabet / well-formed escapes / idempotence; classifier bodies and constants are regenerated from /repo's source on every run (TieClassify.v, TieBlocks.v, TieRender.v); recognizers tied by exhaustive correspondence through the verif hook",
-    "C16": "partial proof: the re-parse property proved end to end on a slice (any number of one-line text paragraphs: SliceReparse.C16_reparse_paras); for general documents: re-parse oracle on the implementation (every root block re-parsed, also under one-byte reads, and compared node by node) plus model/implementation tree correspondence",
+    "C16": "partial proof at the block layer for inputs without NUL: roots closed at the position read so far, and roots closed by the following line that are paragraphs not beginning with '[', code blocks, HTML blocks, quotes or lists, re-parse to themselves (Reparse*); roots from pending children reduced to a suffix document; end to end on a slice of one-line paragraphs; not covered: definitions and the assembly for every root; decided by the re-parse oracle on the implementation (also under one-byte reads) plus tree correspondence",
     "C17": "full proof on the model: first clause for whole documents (C17_only_lt_escaped); second clause for every input and every prefix-closed predicate against a WHATWG data-state tokenizer fragment (C17_no_rejected_start_renderDoc, no side condition); tie: model renderer+filter on the implementation's tree, filterRaw through the hook; oracle uses x/net/html's tokenizer",
     "C18": "full proof: the explicit-stack Walk equals the recursive traversal for every tree and every callback pair over any user state (run_refines_spec), cursor invariant at every callback (walk_cursors_ok), visit-once (visit_once); tie: event traces of the extracted model vs walk.go on the implementation's trees under random policies",
     "C19": "generic schedule-independence / race-freedom theorem (Interleave) whose premise is instantiated by an effect summary regenerated from /repo's typed AST on every run (no global writes, no stores through shared tree/renderer types on the read-only side), plus a -race build running the concurrent workload; the classification's soundness and the Go memory model are trusted",
